@@ -247,25 +247,10 @@ func (rs *bodyStream) skipRest() error {
 		// The handler may have stopped reading inside a chunk: the rest of that chunk is
 		// data, not framing, and must be skipped before the next chunk size is parsed.
 		if rs.chunkLeft > 0 {
-			for rs.chunkLeft > 0 {
-				skip := rs.reader.Len()
-				if skip == 0 {
-					if _, err := rs.reader.Peek(1); err != nil {
-						return err
-					}
-					skip = rs.reader.Len()
-				}
-				if skip > rs.chunkLeft {
-					skip = rs.chunkLeft
-				}
-				if err := rs.reader.Skip(skip); err != nil {
-					return err
-				}
-				if err := rs.reader.Release(); err != nil {
-					return err
-				}
-				rs.chunkLeft -= skip
+			if err := skipBlocking(rs.reader, rs.chunkLeft); err != nil {
+				return err
 			}
+			rs.chunkLeft = 0
 			if err := utils.SkipCRLF(rs.reader); err != nil {
 				return err
 			}
@@ -281,7 +266,8 @@ func (rs *bodyStream) skipRest() error {
 				return SkipTrailer(rs.reader)
 			}
 
-			err = rs.reader.Skip(chunkSize)
+			// the chunk need not be buffered yet: wait for its bytes instead of giving up on the connection
+			err = skipBlocking(rs.reader, chunkSize)
 			if err != nil {
 				return err
 			}
@@ -347,6 +333,31 @@ func (rs *bodyStream) skipRest() error {
 			return nil
 		}
 	}
+}
+
+// skipBlocking discards the next n bytes of r, waiting for those that have not arrived yet and
+// releasing the read buffer as it goes.
+func skipBlocking(r network.Reader, n int) error {
+	for n > 0 {
+		skip := r.Len()
+		if skip == 0 {
+			if _, err := r.Peek(1); err != nil {
+				return err
+			}
+			skip = r.Len()
+		}
+		if skip > n {
+			skip = n
+		}
+		if err := r.Skip(skip); err != nil {
+			return err
+		}
+		if err := r.Release(); err != nil {
+			return err
+		}
+		n -= skip
+	}
+	return nil
 }
 
 // ReleaseBodyStream releases the body stream.
